@@ -67,6 +67,10 @@ type PFCPConn struct {
 	hbCtxCancel context.CancelFunc
 
 	pendingReqs sync.Map
+
+	// shutdownOnce makes Shutdown idempotent: it is triggered from different goroutines
+	// (read timeout, node shutdown, heartbeat timeout, association release)
+	shutdownOnce sync.Once
 }
 
 func (pConn *PFCPConn) startHeartBeatMonitor() {
@@ -231,7 +235,12 @@ func (pConn *PFCPConn) Serve() {
 }
 
 // Shutdown stops connection backing PFCPConn.
+// It can be called more than once and from different goroutines: only the first call takes effect.
 func (pConn *PFCPConn) Shutdown() {
+	pConn.shutdownOnce.Do(pConn.shutdownConn)
+}
+
+func (pConn *PFCPConn) shutdownConn() {
 	close(pConn.shutdown)
 
 	if pConn.hbCtxCancel != nil {
